@@ -194,11 +194,11 @@ def colOf (x : Frame) (f : String) : Option Col := aget? x f
 /-- `BaseDiscretizer.transform` on a frame that has every fitted column.  Columns that are not
     fitted features are returned untouched. -/
 def castFeatures (s : Disc) (x : Frame) : Except Err Frame :=
-  if s.casting.all (fun c => c.2.length == 1) then
-    -- `X.rename(columns={raw: casting[0]})`
-    .ok (x.map (fun col => match aget? s.casting col.1 with
-      | some [n] => (n, col.2)
-      | _ => col))
+  if s.casting.all (fun c => c.2 == [c.1]) then
+    -- `X.rename(columns={raw: casting[0]})` with every feature casted to itself: nothing changes
+    -- (repaired: the test used to be "every casting has one element", which renamed the raw column
+    -- of a one-vs-rest carver that kept each feature for a single class)
+    .ok x
   else
     -- `X.assign(**{copy: X[raw]})`: `X[raw]` of an absent column is a `KeyError`
     s.casting.foldlM (fun acc c =>
